@@ -264,6 +264,22 @@ func (g *scopeGen) child(depth int) {
 	if k == 12 && g.keep {
 		k = 11 // guard js-keepvarnames-else-unscoped (open finding): with KeepVarNames the dissolved else block's names clash unrenamed
 	}
+	if k == 10 && r.Chance(1, 3) {
+		// a named function expression that calls itself: its name is a binding of its own scope
+		nm := g.freshNames(1, nil)
+		if len(nm) == 0 {
+			nm = []string{"self9"}
+		}
+		g.push(true)
+		g.stack[len(g.stack)-1] = append(g.stack[len(g.stack)-1], nm[0], "k9")
+		g.markVar("fname", nm[0])
+		g.markVar("param", "k9")
+		g.w("(function " + nm[0] + "(k9){if(k9>1)return k9;")
+		g.body(depth)
+		g.w("return " + nm[0] + "((k9|0)+1)})(0);")
+		g.pop()
+		return
+	}
 	if k == 11 && r.Bool() {
 		// for-in/of over a target declared beforehand (the loop header declares nothing): the body is a scope of its own
 		g.push(true)
